@@ -565,7 +565,11 @@ func checkCleared(p *core.Prog, r *core.Report, pi *poolInfo) {
 				}
 				switch v := x.Val.(type) {
 				case *ssa.Const:
-					done = "stored constant " + v.String()
+					// the zero value — except the mark of a pooled result, which the clearing function sets
+					zero := v.Value == nil || v.Value.ExactString() == "0" || v.Value.ExactString() == "false" || v.Value.ExactString() == `""`
+					if zero || (strings.HasSuffix(leaf, ".wantsRedeemOnMerge") && v.Value.ExactString() == "true") {
+						done = "stored constant " + v.String()
+					}
 				case *ssa.Slice:
 					src, ok := core.Path(v.X)
 					hi, isC := core.ConstInt(v.High)
